@@ -1,5 +1,6 @@
 import Poulpy.Lemmas.EpTotal
 import Poulpy.Lemmas.KsNoise
+import Poulpy.Lemmas.ProductBound
 
 /-!
 Accumulator head-room DERIVED from operand digit bounds: every coefficient of the executed gadget product (`Ks.gglweProductDft`, hence
@@ -10,194 +11,9 @@ Accumulator head-room DERIVED from operand digit bounds: every coefficient of th
 namespace Core
 open Hal Ks
 
-/-- at most `n` coefficients, all bounded by `D` -/
-def PB (n : Nat) (D : Int) (p : Poly) : Prop := p.length ≤ n ∧ ∀ x ∈ p, |x| ≤ D
+/-! the product part (`PB`, `vmpFlat_bound`, `passEntry_bound`, `product_bound`, `prodBound`, `prodAdmissible`) lives in
+`Lemmas/ProductBound.lean` (no dependence on Props/C03) and is re-exported by the import above -/
 
-theorem PB_zero (n : Nat) (D : Int) (hD : 0 ≤ D) : PB n D (zeroP n) :=
-  ⟨by simp [zeroP], fun x hx => by simp only [zeroP, List.mem_replicate] at hx; rw [hx.2]; simpa using hD⟩
-
-theorem PB.normInf_le {n : Nat} {D : Int} {p : Poly} (h : PB n D p) (hD : 0 ≤ D) : normInf p ≤ D :=
-  normInf_le_of_forall h.2 hD
-
-theorem PB.norm1_le {n : Nat} {D : Int} {p : Poly} (h : PB n D p) (hD : 0 ≤ D) : norm1 p ≤ (n : Int) * D := by
-  have h1 := norm1_le_length_mul_normInf p
-  have h2 := h.normInf_le hD
-  have h3 : ((p.length : Nat) : Int) ≤ (n : Int) := by exact_mod_cast h.1
-  calc norm1 p ≤ (p.length : Int) * normInf p := h1
-    _ ≤ (n : Int) * D := mul_le_mul h3 h2 (normInf_nonneg p) (by positivity)
-
-theorem getD_PB {n : Nat} {D : Int} (l : List Poly) (j : Nat) (h : ∀ p ∈ l, PB n D p) (hD : 0 ≤ D) : PB n D (l.getD j (zeroP n)) := by
-  rw [List.getD_eq_getElem?_getD]
-  cases hj : l[j]? with
-  | none => simpa using PB_zero n D hD
-  | some p => simpa using h p (List.mem_of_getElem? hj)
-
-theorem dftApplyCol_PB {n : Nat} {D : Int} (st off rs : Nat) (a : Col) (h : ∀ l ∈ a, PB n D l) (hD : 0 ≤ D) :
-    ∀ l ∈ dftApplyCol n st off rs a, PB n D l := by
-  intro l hl
-  unfold dftApplyCol at hl
-  simp only [List.mem_map, List.mem_range] at hl
-  obtain ⟨j, _, rfl⟩ := hl
-  split
-  · split
-    · exact getD_PB a _ h hD
-    · exact PB_zero n D hD
-  · exact PB_zero n D hD
-
-theorem getD_nil_mem {α} (L : List (List α)) (i : Nat) : L.getD i [] ∈ L ∨ L.getD i [] = [] := by
-  rw [List.getD_eq_getElem?_getD]
-  cases h : L[i]? with
-  | none => right; rfl
-  | some y => left; simpa using List.mem_of_getElem? h
-
-theorem entry_normInf (m : PMat) (Dm : Int) (hDm : 0 ≤ Dm)
-    (h : ∀ row ∈ m.data, ∀ c ∈ row, ∀ l ∈ c, ∀ x ∈ l, |x| ≤ Dm) (j q : Nat) : normInf (m.entry j q) ≤ Dm := by
-  unfold PMat.entry limbOr0
-  apply normInf_le_of_forall _ hDm
-  intro x hx
-  rw [List.getD_eq_getElem?_getD] at hx
-  cases h1 : ((m.data.getD j []).getD (q % m.colsOut) [])[q / m.colsOut]? with
-  | none =>
-    simp only [h1, Option.getD_none, zeroP, List.mem_replicate] at hx
-    rw [hx.2]; simpa using hDm
-  | some l =>
-    simp only [h1, Option.getD_some] at hx
-    have hl := List.mem_of_getElem? h1
-    rcases getD_nil_mem (m.data.getD j []) (q % m.colsOut) with hc | hc
-    · rcases getD_nil_mem m.data j with hr | hr
-      · exact h _ hr _ hc l hl x hx
-      · rw [hr] at hc; simp at hc
-    · rw [hc] at hl; simp at hl
-
-/-- **one vector-matrix product**: every output polynomial has `‖·‖_∞ ≤ (cols_in·rows) · n·Da·Dm` -/
-theorem vmpFlat_bound (n : Nat) (aF : List Poly) (m : PMat) (lo rl : Nat) (Da Dm : Int) (hDa : 0 ≤ Da) (hDm : 0 ≤ Dm)
-    (haF : ∀ p ∈ aF, PB n Da p) (hm : ∀ j q, normInf (m.entry j q) ≤ Dm) :
-    ∀ p ∈ vmpFlat n aF m lo rl, normInf p ≤ ((m.colsIn * m.rows : Nat) : Int) * ((n : Int) * Da * Dm) := by
-  intro p hp
-  have hK : (0 : Int) ≤ (n : Int) * Da * Dm := by positivity
-  unfold vmpFlat at hp
-  simp only [List.mem_map, List.mem_range] at hp
-  obtain ⟨r, _, rfl⟩ := hp
-  split
-  · have h1 := normInf_sumPolys_le n ((List.range (min (m.colsIn * m.rows) aF.length)).map
-        (fun j => Hal.negMul (aF.getD j (zeroP n)) (m.entry j (r + lo * m.colsOut)))) ((n : Int) * Da * Dm) (by
-      intro q hq
-      simp only [List.mem_map, List.mem_range] at hq
-      obtain ⟨j, _, rfl⟩ := hq
-      have hb := getD_PB aF j haF hDa
-      calc normInf (Hal.negMul (aF.getD j (zeroP n)) (m.entry j (r + lo * m.colsOut)))
-          ≤ norm1 (aF.getD j (zeroP n)) * normInf (m.entry j (r + lo * m.colsOut)) := normInf_negMul_le _ _
-        _ ≤ ((n : Int) * Da) * Dm := mul_le_mul (hb.norm1_le hDa) (hm _ _) (normInf_nonneg _) (by positivity))
-    rw [List.length_map, List.length_range] at h1
-    refine h1.trans (mul_le_mul_of_nonneg_right ?_ hK)
-    exact_mod_cast Nat.min_le_left _ _
-  · rw [normInf_zeroP]; positivity
-
-theorem act_PB {n : Nat} {D : Int} (b : Buf) (c : Nat) (h : ∀ col ∈ b.data, ∀ l ∈ col, PB n D l) : ∀ l ∈ b.act c, PB n D l := by
-  intro l hl
-  unfold Buf.act at hl
-  have hl' := List.mem_of_mem_take hl
-  rw [List.getD_eq_getElem?_getD] at hl'
-  cases hc : b.data[c]? with
-  | none => simp [hc] at hl'
-  | some col =>
-    simp only [hc, Option.getD_some] at hl'
-    exact h col (List.mem_of_getElem? hc) l hl'
-
-theorem limbOr0_PB {n : Nat} {D : Int} (c : Col) (j : Nat) (h : ∀ l ∈ c, PB n D l) (hD : 0 ≤ D) : PB n D (limbOr0 n c j) :=
-  getD_PB c j h hD
-
-theorem passEntry_bound (a : Buf) (key : Key) (n di l c : Nat) (Da Dm : Int) (hDa : 0 ≤ Da) (hDm : 0 ≤ Dm)
-    (ha : ∀ col ∈ a.data, ∀ p ∈ col, PB n Da p) (hm : ∀ j q, normInf (key.mat.entry j q) ≤ Dm) :
-    normInf (passEntry a key n di l c) ≤ ((key.mat.colsIn * key.mat.rows : Nat) : Int) * ((n : Int) * Da * Dm) := by
-  unfold passEntry
-  rw [List.getD_eq_getElem?_getD]
-  cases h : (vmpFlat n (aiFlatOf a key n di) key.mat di (passSize key di * key.mat.colsOut))[l * key.mat.colsOut + c]? with
-  | none => simp only [Option.getD_none]; rw [normInf_zeroP]; positivity
-  | some p =>
-    simp only [Option.getD_some]
-    apply vmpFlat_bound n _ key.mat di _ Da Dm hDa hDm _ hm p (List.mem_of_getElem? h)
-    intro q hq
-    unfold aiFlatOf at hq
-    simp only [List.mem_map, List.mem_range] at hq
-    obtain ⟨r, _, rfl⟩ := hq
-    exact limbOr0_PB _ _ (dftApplyCol_PB _ _ _ _ (act_PB a _ ha) hDa) hDa
-
-theorem normInf_condFold_le (m : Nat) (P : Nat → Prop) [DecidablePred P] (g : Nat → Poly) (init : Poly) (K : Int)
-    (hg : ∀ k, normInf (g k) ≤ K) :
-    normInf ((List.range m).foldl (fun acc k => if P k then polyAdd acc (g k) else acc) init) ≤ normInf init + (m : Int) * K := by
-  have hK : 0 ≤ K := (normInf_nonneg (g 0)).trans (hg 0)
-  induction m with
-  | zero => simp
-  | succ m ih =>
-    rw [List.range_succ, List.foldl_append]
-    simp only [List.foldl_cons, List.foldl_nil]
-    push_cast
-    split
-    · have := normInf_polyAdd_le ((List.range m).foldl (fun acc k => if P k then polyAdd acc (g k) else acc) init) (g m)
-      have := hg m
-      linarith
-    · linarith
-
-/-- **the executed gadget product, every `dsize ≥ 1`**: each limb of each column has `‖·‖_∞ ≤ dsize · (cols_in·rows) · N·Da·Dm` -/
-theorem product_bound (N : Nat) (res a : Buf) (key : Key) (Da Dm : Int) (hDa : 0 ≤ Da) (hDm : 0 ≤ Dm) (hD : 1 ≤ key.dsize) (hres : res.WF)
-    (hmax : res.maxSize = key.mat.size) (hsize : res.size = key.mat.size) (hcols : res.cols = key.mat.colsOut)
-    (hresn : res.n = N) (han : a.n = N)
-    (ha : ∀ col ∈ a.data, ∀ p ∈ col, PB N Da p) (hm : ∀ j q, normInf (key.mat.entry j q) ≤ Dm) (c : Nat) (hc : c < res.cols) :
-    ∀ p ∈ (Ks.gglweProductDft res a key).act c,
-      normInf p ≤ (key.dsize : Int) * (((key.mat.colsIn * key.mat.rows : Nat) : Int) * ((N : Int) * Da * Dm)) := by
-  subst hresn
-  have hK : (0 : Int) ≤ ((key.mat.colsIn * key.mat.rows : Nat) : Int) * ((res.n : Int) * Da * Dm) := by positivity
-  by_cases h1 : key.dsize = 1
-  · have e : Ks.gglweProductDft res a key = opVmp res a key.mat 0 := by
-      unfold Ks.gglweProductDft; rw [if_pos h1]
-    obtain ⟨s1, s2, s3, s4, _, s6⟩ := Ks.opVmp_spec res a key.mat 0 hres
-    rw [e, h1]
-    intro p hp
-    obtain ⟨l, hl, rfl⟩ := List.getElem_of_mem hp
-    have hlen : ((opVmp res a key.mat 0).act c).length = res.size := by
-      rw [Buf.act_length _ s1 c (by rw [s2]; exact hc), s3]
-    have hl' : l < res.size := by rw [← hlen]; exact hl
-    have e2 : ((opVmp res a key.mat 0).act c)[l] = Ks.rawLimb res.n (opVmp res a key.mat 0) c l := by
-      have h1 : ((opVmp res a key.mat 0).act c)[l] = ((opVmp res a key.mat 0).act c).getD l (zeroP res.n) := by
-        simp [List.getD_eq_getElem?_getD, List.getElem?_eq_getElem hl]
-      rw [h1]
-      unfold Ks.rawLimb limbOr0 Buf.act
-      exact Ks.getD_take' _ _ l _ (by rw [s3]; exact hl')
-    rw [e2, s6 c l hc, if_pos hl']
-    simp only [Nat.cast_one, one_mul]
-    rw [List.getD_eq_getElem?_getD]
-    cases h : (vmpFlat res.n a.flat key.mat 0 (res.size * res.cols))[l * res.cols + c]? with
-    | none => simp only [Option.getD_none]; rw [normInf_zeroP]; exact hK
-    | some q =>
-      simp only [Option.getD_some]
-      apply vmpFlat_bound res.n _ key.mat 0 _ Da Dm hDa hDm _ hm q (List.mem_of_getElem? h)
-      intro r hr
-      unfold Buf.flat at hr
-      simp only [List.mem_map, List.mem_range] at hr
-      obtain ⟨i, _, rfl⟩ := hr
-      rw [han]
-      exact limbOr0_PB _ _ (act_PB a _ ha) hDa
-  · have hD2 : 2 ≤ key.dsize := by omega
-    intro p hp
-    obtain ⟨l, hl, rfl⟩ := List.getElem_of_mem hp
-    have e2 : ((Ks.gglweProductDft res a key).act c)[l] = limbOr0 res.n ((Ks.gglweProductDft res a key).act c) l := by
-      simp [limbOr0, List.getD_eq_getElem?_getD, List.getElem?_eq_getElem hl]
-    rw [e2, Ks.product_accum res a key hD2 hres hmax hcols han.symm l c hc]
-    have hpe : ∀ di, normInf (passEntry a key res.n di l c) ≤ ((key.mat.colsIn * key.mat.rows : Nat) : Int) * ((res.n : Int) * Da * Dm) :=
-      fun di => passEntry_bound a key res.n di l c Da Dm hDa hDm ha hm
-    have h := normInf_condFold_le (key.dsize - 1) (fun k => l < Ks.passSize key (k + 1)) (fun k => passEntry a key res.n (k + 1) l c)
-      (if l < Ks.passSize key 0 then passEntry a key res.n 0 l c else zeroP res.n) _ (fun k => hpe (k + 1))
-    have hinit : normInf (if l < Ks.passSize key 0 then passEntry a key res.n 0 l c else zeroP res.n)
-        ≤ ((key.mat.colsIn * key.mat.rows : Nat) : Int) * ((res.n : Int) * Da * Dm) := by
-      split
-      · exact hpe 0
-      · rw [normInf_zeroP]; exact hK
-    have hd : ((key.dsize : Nat) : Int) = ((key.dsize - 1 : Nat) : Int) + 1 := by
-      have : key.dsize = (key.dsize - 1) + 1 := by omega
-      exact_mod_cast this
-    rw [hd]
-    nlinarith [h, hinit]
 
 theorem mkBuf_PB (n cols size : Nat) (d : List Col) (D : Int) (h : shapeOk n cols size d = true)
     (hb : ∀ c ∈ d, ∀ l ∈ c, ∀ x ∈ l, |x| ≤ D) : ∀ col ∈ (mkBuf n cols size d).data, ∀ p ∈ col, PB n D p := by
@@ -315,23 +131,9 @@ theorem cnvApplyCol_bound (n S hi : Nat) (x y : Col) (Da Db : Int) (hDa : 0 ≤ 
 
 /-! ### admissible shapes -/
 
-/-- the derived bound of the gadget product -/
-def prodBound (dsize colsIn rows N : Nat) (Da Dm : Int) : Int := (dsize : Int) * (((colsIn * rows : Nat) : Int) * ((N : Int) * Da * Dm))
-
-/-- **admissible shape of a gadget product** (external product: `colsIn = rank+1`; key switch / relinearisation / row expansion:
-`colsIn` = input columns): digits `|a| ≤ Da`, `|key| ≤ Dm`, an added operand bounded by `Y` (`0` when nothing is added): the derived
-accumulator bound leaves the head-room the normalisation kernel needs, `bits = 64` (FFT64) or `128` (NTT120). -/
-def prodAdmissible (bits dsize colsIn rows N : Nat) (Da Dm Y : Int) : Prop := prodBound dsize colsIn rows N Da Dm + Y + 8 ≤ 2 ^ (bits - 2)
-
-instance (bits dsize colsIn rows N : Nat) (Da Dm Y : Int) : Decidable (prodAdmissible bits dsize colsIn rows N Da Dm Y) := by
-  unfold prodAdmissible; infer_instance
-
 /-- **admissible shape of a convolution** (`terms` = limbs of the second operand, `N` = ring degree for the bivariate form, `1` for constants) -/
 def cnvAdmissible (bits terms N : Nat) (Da Db : Int) : Prop := (terms : Int) * ((N : Int) * Da * Db) + 8 ≤ 2 ^ (bits - 2)
 
 instance (bits terms N : Nat) (Da Db : Int) : Decidable (cnvAdmissible bits terms N Da Db) := by unfold cnvAdmissible; infer_instance
-
-theorem prodBound_nonneg (dsize colsIn rows N : Nat) (Da Dm : Int) (hDa : 0 ≤ Da) (hDm : 0 ≤ Dm) : 0 ≤ prodBound dsize colsIn rows N Da Dm := by
-  unfold prodBound; positivity
 
 end Core
